@@ -135,10 +135,14 @@ def alone_values(wd, facts):
             exprs.append("sizeof(%s)" % t)
             for m_ in mem: exprs.append("offsetof(%s, %s)" % (t, m_))
         vals = {}
+        macro_names = set(f["name"] for f in fs if f["kind"] == "macro" and f["body"] and not f.get("fnlike"))
         # probe each expression separately for "is an integer constant expression" by compiling all, dropping failures
         good = list(dict.fromkeys(exprs))
         for attempt in range(6):
             lines = "\n".join('  printf("%%s\\t%%lld\\n", "%s", (long long)(%s));' % (e.replace('"', ''), e) for e in good)
+            # type of the integer constants that are macros: size and signedness (a macro redefined with another spelling of the
+            # same value - 4 / 4u / 4L - changes the arithmetic of every expression it is used in)
+            lines += "\n" + "\n".join('  printf("T\\t%%s\\t%%d\\t%%d\\n", "%s", (int)sizeof(%s), (int)(((__typeof__(%s))-1) < 0));' % (e, e, e) for e in good if e in macro_names)
             cfile = os.path.join(wd, "probe_%s.c" % re.sub(r"\W", "_", h))
             open(cfile, "w").write(PROBE_C % {"hdr": h, "lines": lines})
             exe = cfile[:-2]
@@ -146,7 +150,9 @@ def alone_values(wd, facts):
             if r.returncode == 0:
                 out = subprocess.run([exe], capture_output=True, text=True).stdout
                 for ln in out.split("\n"):
-                    if "\t" in ln:
+                    if ln.startswith("T\t"):
+                        _, k, sz, sg = ln.split("\t"); TYPE_FACTS.setdefault(h, {})[k] = (int(sz), int(sg))
+                    elif "\t" in ln:
                         k, val = ln.split("\t"); vals[k] = int(val)
                 break
             bad = set()
@@ -177,6 +183,7 @@ def plain_functions(facts):
     return out
 
 PLAIN_FUNCS = {}
+TYPE_FACTS = {}
 
 def tu_text(order, alone, lang):
     """returns (source, {line number: expression})"""
@@ -195,6 +202,14 @@ def tu_text(order, alone, lang):
             else:
                 t.append('static_assert((long long)(%s) == %dLL, "%s changed meaning");' % (e, val, e.replace('"', '')))
             lines[len(t)] = e
+    for h in order:
+        for e, (sz, sg) in TYPE_FACTS.get(h, {}).items():
+            k += 1
+            if lang == "c":
+                t.append("typedef char verif_type_%d[(sizeof(%s) == %d && ((((__typeof__(%s))-1) < 0) == %d)) ? 1 : -1];" % (k, e, sz, e, sg))
+            else:
+                t.append('static_assert(sizeof(%s) == %d && ((((decltype(%s))-1) < 0) == %d), "%s changed meaning");' % (e, sz, e, sg, e))
+            lines[len(t)] = e + " (type)"
     t.append("int verif_tu_dummy;")
     return "\n".join(t) + "\n", lines
 
@@ -207,7 +222,7 @@ def compile_tuple(wd, order, alone, lang):
     for ln in r.stderr.split("\n"):
         if " error" not in ln: continue
         m = re.match(r"<stdin>:(\d+):", ln)
-        if m and int(m.group(1)) in lines and ("verif_assert" in ln or "size of array" in ln or "negative" in ln):
+        if m and int(m.group(1)) in lines and ("verif_assert" in ln or "verif_type" in ln or "size of array" in ln or "negative" in ln):
             errs.append('error: static assertion failed: "%s changed meaning"' % lines[int(m.group(1))])
         else:
             errs.append(ln)
